@@ -1204,6 +1204,17 @@ impl World {
         let chosen_deleted = Rev::parse(&chosen).map_or(false, |x| x.is_deleted());
         let before = self.digest_of(r)?;
         let val_before = self.call("get_value", || m.get_value(&uuid, Some(&chosen)))?;
+        // order of the chosen leaf per the reference, when the leaf is committed history
+        let chosen_order: Option<Vec<String>> = if uuid.starts_with('^') && self.is(&["C07"]) {
+            let items: Items = {
+                let seen = &self.replicas[r].seen;
+                self.replicas[r].disk.items().into_iter().filter(|(k, _)| seen.contains(k)).collect()
+            };
+            let st = RefState::from_items(&items);
+            st.array_order(&uuid, &chosen).ok().map(|o| o.iter().filter_map(|x| x.as_str().map(|s| s.to_string())).collect())
+        } else {
+            None
+        };
         let res = self.call("resolve_as", || m.resolve_as(&uuid, &chosen))?;
         self.bump("probe.resolve");
         if uuid.starts_with('^') {
@@ -1226,6 +1237,22 @@ impl World {
             }
             if chosen_is_winner && before["doc"] != after["doc"] {
                 viol!(self, "resolve-winner-keeps-document", "resolve-winner-changed-doc", "resolving {} in favour of the current winner {} changed the document:\n before={}\n after={}", uuid, chosen, trunc(&before["doc"]), trunc(&after["doc"]));
+            }
+            if let (true, Some(order)) = (uuid.starts_with('^') && !chosen_deleted, &chosen_order) {
+                // the array shows the chosen version's live elements in the chosen version's order
+                if let Some((owner, key)) = uuid[1..].rsplit_once('@') {
+                    if let Some(arr) = find_tracked(&after["doc"]["ok"], owner).and_then(|o| o.get(key).and_then(|x| x.as_array().cloned())) {
+                        let got: Vec<String> = arr.iter().filter_map(|e| e.get("_id").and_then(|x| x.as_str()).map(|s| s.to_string())).collect();
+                        let want: Vec<&String> = order.iter().filter(|e| got.contains(e)).collect();
+                        let have: Vec<&String> = got.iter().filter(|e| order.contains(e)).collect();
+                        self.bump("probe.resolve_array_order_checked");
+                        if want != have {
+                            viol!(self, "resolve-adopts-chosen", "resolved-array-order", "{} resolved as {}: the array reads {:?} but the chosen version's order is {:?}", uuid, chosen, got, order);
+                        }
+                        // elements of the other versions may stay (the resolution adopts the merge on the
+                        // chosen base, which is what keeps commit's automatic resolution from changing the view)
+                    }
+                }
             }
             if !uuid.starts_with('^') {
                 // the object's visible state equals the state at the chosen revision
@@ -1653,6 +1680,25 @@ impl World {
                 viol!(self, "block-reads-back", "applied-unknown-block", "{}: applied block {} has no valid file in storage", when, b);
             }
             self.bump("probe.block_read_back");
+        }
+        // blocks the replica holds but has not applied read back unchanged as well
+        for (b, stt) in status.iter().filter(|(_, s)| *s != "applied") {
+            let _ = stt;
+            let (did, rb) = match (melda::melda::DeltaId::from(b), st.blocks.get(b)) {
+                (Ok(d), Some(rb)) => (d, rb),
+                _ => continue,
+            };
+            if let Ok(Some(d)) = self.call("get_delta", || m.get_delta(&did))? {
+                let parents: BTreeSet<String> = d.parents.clone().unwrap_or_default().iter().map(|p| p.to_string()).collect();
+                let rp: BTreeSet<String> = rb.parents.iter().cloned().collect();
+                let packs: BTreeSet<String> = d.packs.clone().unwrap_or_default();
+                let rpacks: BTreeSet<String> = rb.packs.iter().cloned().collect();
+                let info = d.info.clone().map(Value::Object);
+                if parents != rp || packs != rpacks || info != rb.info {
+                    viol!(self, "block-reads-back", "held-back-block-differs-from-file", "{}: get_delta({}) (held back) differs from the stored file: parents {:?}/{:?} packs {:?}/{:?} info {:?}/{:?}", when, b, parents, rp, packs, rpacks, info, rb.info);
+                }
+                self.bump("probe.held_back_block_read_back");
+            }
         }
         let heads: BTreeSet<String> = applied.difference(&named).cloned().collect();
         let got = self.call("get_anchors", || heads_of(m))?;
